@@ -66,6 +66,7 @@ func C16(c *Ctx) {
 	c.R.Rule("C16-R3", "E7+E3", "one transaction for all records", 4)
 	c.R.Rule("C16-R7", "E3", "the store reports success only for a committed transaction, or when there was nothing to write", 2)
 	c.shareRule("C03", "C03-R1", "C16-R8", "matching a message against a machine's bindings leaves them as they are: the state in memory does not change before the write")
+	c16CrewNotCopied(c, "C16-R2")
 	c.R.Rule("C16-R9", "E3", "every record Process writes carries the machine's spec source", 1)
 	c16RecordsComplete(c, "C16-R9")
 	c.R.Rule("C16-R5", "E3", "a failed write is not acted upon: nothing emitted by the uncommitted transitions is reported or re-processed", 1)
